@@ -119,8 +119,10 @@ fn compare(ix: &DatasetIndex, m: &Model) -> Result<(), String> {
 /// explore every sequence of <= 3 ops; report the first divergence whose LAST op satisfies `focus`
 fn explore(focus: fn(Op) -> bool) {
     let ops = all_ops();
+    let thorough = std::env::var("VERIF_TIER").map_or(false, |v| v == "thorough");
+    let maxlen = if thorough { 4 } else { 3 };
     let mut seqs: Vec<Vec<Op>> = vec![vec![]];
-    for _len in 0..3 {
+    for _len in 0..maxlen {
         let mut next = Vec::new();
         for prefix in &seqs {
             if prefix.len() != _len { continue; }
@@ -130,6 +132,10 @@ fn explore(focus: fn(Op) -> bool) {
             }
         }
         seqs.extend(next);
+        if _len == 2 && thorough {
+            // thorough: length-4 sequences whose first THREE operations only touch subject/predicate 0 (keeps the space at ~1.2M)
+            seqs.retain(|s| s.len() < 3 || s.iter().all(|o| match o { Op::Ins(a, b, _, _) | Op::Del(a, b, _, _) | Op::InsT(a, b, _) | Op::DelT(a, b, _) => *a == 0 && *b == 0, _ => true }));
+        }
         if _len == 1 { // prune: only keep length-2 prefixes whose ops touch graph Named(0)/Default and s<=1 (all of them) - cap size
             seqs.retain(|s| s.len() < 2 || matches!(s[0], Op::Ins(..) | Op::Create(..) | Op::InsT(..)));
         }
